@@ -365,9 +365,11 @@ fn apply_subtable(kind: &morx::SubtableKind, ac: &mut hb_aat_apply_context_t) {
                 if let Some(range_flags) = ac.range_flags.as_ref() {
                     if let Some(last_range) = last_range.as_mut() {
                         let mut range = *last_range;
-                        if ac.buffer.idx < ac.buffer.len {
-                            // We need to access info
-                            let cluster = ac.buffer.cur(0).cluster;
+                        {
+                            // The range is the one of the glyph being substituted
+                            // (NoncontextualSubtable::apply in HarfBuzz), not of `cur(0)`:
+                            // `idx` is not advanced by this loop.
+                            let cluster = ac.buffer.info[info].cluster;
                             while cluster < range_flags[range].cluster_first {
                                 range -= 1;
                             }
